@@ -7,6 +7,7 @@ alloc-size     : no file-derived signed value is converted to a 32-bit unsigned 
 load-index-site: every index site reachable from the loading constructor is guarded / justified / listed
 recursion      : the matrix readers follow the recursion scheme (depth bounded by the dimension count, an
                  unsigned byte)
+waiting-loop   : every uncounted loop on the load path owns an exit decided by the state / position of the stream
 checked-read   : the result of a read from the file is not used before the stream state was looked at
                  (known finding K8: it never is; work is proportional to declared counts, not to the file)"""
 import re
@@ -187,6 +188,59 @@ def run(prog, tier):
                              'the loader resets the state of the file stream: end-of-file / failure is no longer visible to the code that waits for it (the leading-zero loop of the header '
                              'reader never ends on an empty or all-zero file)', function=f.sig, expr='clear:' + f.name)
     res.ok('checked-read', 'the load path never clears the state of the file stream', 'src/', '%d clear()/setstate() calls on the stream' % nclear, function='', expr='no-clear', nontrivial=False)
+    # ---- waiting loops: a loop on the load path that is not a counted `for` waits for something the file
+    # must deliver; on a short (or empty) file every read returns stale bytes, so the loop must own an exit
+    # (throw / break / return) decided by the state or the position of the stream
+    STATE = {'eof', 'fail', 'good', 'bad', 'tellg', 'gcount', 'operator!', 'operator bool', 'peek'}
+    nwait = 0
+    for f in load:
+        if f.implicit:
+            continue
+        for n in f.all_nodes({'WhileStmt', 'DoStmt', 'ForStmt'}):
+            if n['k'] == 'ForStmt' and n.get('inc') is not None and n.get('cond') is not None:
+                continue
+            nwait += 1
+
+            def state_test(cid):
+                if cid is None:
+                    return False
+                for d in [cid] + list(f.descendants(cid)):
+                    dn = f.nodes[d]
+                    if dn['k'] in CALL_KINDS and 'callee' in dn and dn['callee']['name'] in STATE:
+                        return True
+                    # a local that was set from the stream position / state just before
+                    if dn['k'] == 'DeclRefExpr' and dn.get('decl') is not None:
+                        for m in f.nodes:
+                            if m['k'] == 'VarDecl' and m['id'] == dn.get('decl') and m.get('init') is not None:
+                                for d2 in [m['init']] + list(f.descendants(m['init'])):
+                                    d2n = f.nodes[d2]
+                                    if d2n['k'] in CALL_KINDS and 'callee' in d2n and d2n['callee']['name'] in STATE:
+                                        return True
+                return False
+            exits = []
+            if state_test(n.get('cond')):
+                exits.append('loop condition')
+            for d in f.descendants(n['body']) if n.get('body') is not None else []:
+                dn = f.nodes[d]
+                if dn['k'] != 'IfStmt' or not state_test(dn.get('cond')):
+                    continue
+                for br in (dn.get('then'), dn.get('else')):
+                    if br is None:
+                        continue
+                    if any(f.nodes[x]['k'] in ('CXXThrowExpr', 'BreakStmt', 'ReturnStmt') for x in [br] + list(f.descendants(br))):
+                        exits.append('line %d' % dn.get('line', 0))
+            reads = [d for d in ([n['cond']] if n.get('cond') is not None else []) + list(f.descendants(n['id']))
+                     if f.nodes[d]['k'] in CALL_KINDS and 'callee' in f.nodes[d] and f.nodes[d]['callee']['name'] in ('readInt', 'readUint', 'readFloat', 'readString', 'readFile', 'read')]
+            inst = 'waiting loop in %s' % f.qname.split('::')[-1]
+            if exits:
+                res.ok('waiting-loop', inst, f.loc(n['id']), 'the loop owns an exit decided by the state / position of the stream (%s)' % ', '.join(exits[:3]), function=f.sig, expr='wait:' + f.name)
+            elif reads:
+                res.viol('waiting-loop', inst, f.loc(n['id']), 'the loop reads from the file until a value arrives and has no exit decided by the state or position of the stream: '
+                         'on an empty or short file every read returns stale bytes and the loop never ends', function=f.sig, expr='wait:' + f.name)
+            else:
+                res.undecided('waiting-loop', inst, f.loc(n['id']), 'uncounted loop on the load path whose progress the rule cannot read [shape not read by the rule]', function=f.sig, expr='wait:' + f.name)
+    res.info['waiting_loops'] = nwait
+    res.minimum('uncounted loops on the load path', nwait, 1)
     # ---- checked-read --------------------------------------------------------------------------------
     rf = prog.fn('ezc3d::c3d::readFile', nparams=4)
     reads = [c for c in rf.calls() if c['callee']['name'] == 'read' and c['callee'].get('classq', '').startswith('std::basic_istream')]
